@@ -28,6 +28,7 @@ def run(ctx):
     check_numbers(ctx, prog)
     check_tags(ctx, prog)
     check_sink(ctx, prog)
+    check_exact_reals(ctx, prog)
     # the decoder side of the number round trip: integer / double conversion sites of the parser are range-guarded
     C06.check_numbers(ctx, prog)
     # ... and of the documents the encoders write: numbers in every form directly followed by a separator, XDL items separated by
@@ -42,6 +43,42 @@ def run(ctx):
     except automaton.Stuck as ex:
         ctx.undecided('C06.docs', 'asl::XdlParser::parse', 'parse:every document of the corpus has an accepting run', '/repo/src/Xdl.cpp:0', 'the decoder loop uses a construct the abstract interpreter cannot represent: %s' % ex)
     return __doc__.split('\n\n', 1)[1]
+
+
+def check_exact_reals(ctx, prog):
+    """C05.exact: "every non-zero double is recovered bit for bit" needs a correctly rounded text-to-double conversion.  The C
+    library's atof / strtod is one; the library's own myatof (integer mantissa times pow(10, exponent)) is up to an ulp off
+    and is meant for the ASL_FAST_JSON configuration only.  In the configuration that is built, every conversion of a number
+    text reachable from XdlParser::parse (through the helpers of its unit) is a call of atof / strtod, none of myatof."""
+    f = fn1(prog, 'asl::XdlParser::parse')
+    exact, inexact = [], []
+    seen = set()
+
+    def visit(g, depth):
+        if id(g) in seen or depth > 3:
+            return
+        seen.add(id(g))
+        for w in fn_exprs(g):
+            if w.get('k') != 'call':
+                continue
+            nm = (w.get('pq') or w.get('fn') or '').lstrip(':')
+            if nm in ('atof', 'strtod', 'std::atof', 'std::strtod'):
+                exact.append((g, w))
+            elif nm in ('asl::myatof', 'myatof'):
+                inexact.append((g, w))
+            elif not w.get('clsp') or w.get('clsp') == 'asl::XdlParser':
+                for h in prog.fn(w.get('fn'), w.get('sig')):
+                    if h.get('body') and (h.get('file') or '') == (f.get('file') or ''):
+                        visit(h, depth + 1)
+    visit(f, 0)
+    ctx.analysed(f)
+    role = 'parse:number texts are converted by a correctly rounded routine'
+    if inexact:
+        g, w = inexact[0]
+        ctx.violation('C05.exact', f['pq'], role, fwhere(g, w.get('l')), '%s converts a number text with `%s`: myatof multiplies an integer mantissa by pow(10, exponent), which is one ulp off for about 6%% of the short decimal texts (0.09375 -> 0.093750000000000014); such a double is not recovered bit for bit' % (g['pq'], pe(w)))
+    elif exact:
+        ctx.ok('C05.exact', f['pq'], role, fwhere(f), '%d conversion site(s), all atof / strtod' % len(exact))
+    ctx.floor('C05.exact conversion sites', len(exact) + len(inexact), 1)
 
 
 def fn1(prog, name, sig=None):
